@@ -327,7 +327,8 @@ def sub_run(ctx, cmd, skf, aux, tag):
         if p.returncode != 0:
             return p.returncode, None
         q = ctx.sh(b, 'nk', '--full-info', out + '.skf')
-        return q.returncode, content_of(q.stdout)
+        # the command itself accepted its input: an output that cannot be read back is then a result, not a rejection
+        return 0, (content_of(q.stdout) if q.returncode == 0 else 'the output written cannot be read back: exit %d' % q.returncode)
     if cmd == 'align':
         p = ctx.sh(b, 'align', skf, '--filter', 'no-filter', '--min-freq', '0', mem_gb=MEM_GB)
         n, s = M.parse_fasta(p.stdout)
@@ -344,7 +345,8 @@ def sub_run(ctx, cmd, skf, aux, tag):
         if p.returncode != 0:
             return p.returncode, None
         q = ctx.sh(b, 'nk', '--full-info', out)
-        return q.returncode, content_of(q.stdout)
+        # the command itself accepted its input: an output that cannot be read back is then a result, not a rejection
+        return 0, (content_of(q.stdout) if q.returncode == 0 else 'the output written cannot be read back: exit %d' % q.returncode)
     if cmd in ('weed-nofile', 'weed-mask'):
         # weed without a weed file: nothing to remove (and nothing to filter), or only a mask to apply
         out = ctx.path('wn_%s.skf' % tag)
@@ -352,14 +354,16 @@ def sub_run(ctx, cmd, skf, aux, tag):
         if p.returncode != 0:
             return p.returncode, None
         q = ctx.sh(b, 'nk', '--full-info', out)
-        return q.returncode, content_of(q.stdout)
+        # the command itself accepted its input: an output that cannot be read back is then a result, not a rejection
+        return 0, (content_of(q.stdout) if q.returncode == 0 else 'the output written cannot be read back: exit %d' % q.returncode)
     if cmd == 'delete':
         out = ctx.path('d_%s' % tag)
         p = ctx.sh(b, 'delete', '-s', skf, '-o', out, aux['del'], mem_gb=MEM_GB)
         if p.returncode != 0:
             return p.returncode, None
         q = ctx.sh(b, 'nk', '--full-info', out + '.skf')
-        return q.returncode, content_of(q.stdout)
+        # the command itself accepted its input: an output that cannot be read back is then a result, not a rejection
+        return 0, (content_of(q.stdout) if q.returncode == 0 else 'the output written cannot be read back: exit %d' % q.returncode)
     if cmd == 'merge':
         out = ctx.path('m_%s' % tag)
         order = [skf, aux['other']] if aux['merge_first'] else [aux['other'], skf]
@@ -367,7 +371,8 @@ def sub_run(ctx, cmd, skf, aux, tag):
         if p.returncode != 0:
             return p.returncode, None
         q = ctx.sh(b, 'nk', '--full-info', out + '.skf')
-        return q.returncode, content_of(q.stdout)
+        # the command itself accepted its input: an output that cannot be read back is then a result, not a rejection
+        return 0, (content_of(q.stdout) if q.returncode == 0 else 'the output written cannot be read back: exit %d' % q.returncode)
     if cmd == 'lo':
         out = ctx.path('lo_%s' % tag)
         p = ctx.sh(b, 'lo', skf, out, mem_gb=MEM_GB)
